@@ -178,6 +178,8 @@ class Engine(TorchDispatchMode):
         self.registered_eigh = []
         self.registered_qr = []
         self.rng_draws = []
+        self.rng_queue = []
+        self.rng_shapes = []
         self.n_checked_ops = 0
         self.max_ops = 400000
         self.cstore = {}  # complex storages: key -> (re flat array, im flat array)
@@ -465,8 +467,12 @@ class Engine(TorchDispatchMode):
     def fresh_symbolic(self, out, base, sort=None, record=None):
         """turn a freshly produced concrete tensor (RNG draw, uninitialised memory) into symbolic variables"""
         sort = sort or sort_of_dtype(out.dtype)
-        self.nfresh += 1
-        base = f"{base}!{self.nfresh}"
+        if base.startswith("rng_"):
+            self.nrng = getattr(self, "nrng", 0) + 1  # own counter: the replay names draws the same way
+            base = f"{base}!{self.nrng}"
+        else:
+            self.nfresh += 1
+            base = f"{base}!{self.nfresh}"
         n = out.numel()
         self.alloc(out)
         if n == 0:
